@@ -146,4 +146,207 @@ Proof.
     split; [assumption|]. intros Hq _. unfold live. intros Hne Hh. apply D1; assumption.
 Qed.
 
+
+Lemma invR_frame x s s' :
+  invR x s -> s_open s' = s_open s -> s_files s' = s_files s -> s_bits s' = s_bits s ->
+  s_ranges s' = s_ranges s -> s_pos s' = s_pos s -> s_out s' = s_out s -> s_hq s' = s_hq s ->
+  s_nodes s' = s_nodes s -> s_ierr s' = s_ierr s -> (s_delay s' = true -> s_delay s = true) ->
+  invR x s'.
+Proof.
+  intros [S0 I0 NL RL B ND X NDP HL HRg P O D] E1 E2 E3 E4 E5 E6 E7 E8 E9 E10.
+  constructor; unfold hqi in *; rewrite ?E1, ?E2, ?E3, ?E4, ?E5, ?E6, ?E7, ?E8, ?E9; auto;
+    try (eapply invS_same; eauto; fail); try (intros Hd'; apply D; auto; fail).
+Qed.
+
+(* ---------------------------------------------------------------- scheduler tick *)
+Lemma do_tick_inv s :
+  inv None s ->
+  inv None (do_tick s) /\
+  (is_checking s = false -> is_checking (do_tick s) = false) /\
+  (s_hq s = [] -> live s -> is_checking (do_tick s) = false) /\
+  (s_delay s = false -> do_tick s = s).
+Proof.
+  intros [HR [C2 C9]]. pose proof HR as [S0 I0 NL RL B ND X NDP HL HRg P O D].
+  unfold do_tick. destruct (s_delay s) eqn:Hd; cbn [negb].
+  2:{ split; [split; [assumption | constructor; assumption]|]. split; [auto|]. split; [|reflexivity].
+      intros Hh Hl. unfold is_checking. destruct (s_out s) eqn:Ho; [|reflexivity].
+      unfold live in Hl. rewrite Ho in Hl. rewrite Hl in Hd; [discriminate | discriminate | assumption]. }
+  specialize (D eq_refl). unfold is_checking. cbn [s_out set_delay].
+  destruct (s_out s) as [k|] eqn:Ho; cbn [negb].
+  - destruct D as [-> Hpl]. destruct O as (Ok & Oo & Ob).
+    assert (Hhq : s_hq s = []) by (destruct (s_hq s); [reflexivity | discriminate]).
+    unfold out_val. cbn [s_out set_delay]. rewrite Ho. cbn [Nat.eqb s_hq set_out set_delay]. rewrite Hhq.
+    split; [|split; [intros Hx; discriminate | split; [reflexivity | intros Hx; discriminate]]].
+    assert (Hlen : length (s_nodes s) = n) by (rewrite NL, Oo; reflexivity).
+    split.
+    + constructor; unfold hqi; simpl; rewrite ?Hhq.
+      * eapply invS_same; eauto.
+      * assumption.
+      * assumption.
+      * assumption.
+      * assumption.
+      * intros i nd Hn. destruct (ND i nd Hn) as [_ A2].
+        split; [intros [] | intros _ _; apply A2; [unfold hqi; rewrite Hhq; intros [] | discriminate]].
+      * discriminate.
+      * constructor.
+      * intros i [].
+      * intros i [].
+      * assumption.
+      * split; [reflexivity | right; assumption].
+      * discriminate.
+    + assert (Hs : settled s) by (intros e; congruence).
+      constructor; intros bl Hb Hst i Hi; simpl in Hb; unfold pend; simpl.
+      * intros Hbit Hv. destruct (C2 bl Hb Hs i Hi Hbit Hv) as [_ Hm]. rewrite Ho in Hm.
+        unfold hqi in Hm. rewrite Hhq in Hm. destruct Hm as [Hm|[]]. lia.
+      * intros [_ Hp0]. lia.
+  - assert (HR' : invR None (set_storerr (set_delay s false) true)).
+    { eapply invR_frame; eauto; simpl; discriminate. }
+    destruct (wrapper_close_inv H pl expected fs0 _ HR') as (A & A2 & A3 & A4 & A5 & A6 & A7 & A8).
+    split; [assumption|]. rewrite A3. split; [reflexivity | split; [reflexivity | intros Hx; discriminate]].
+Qed.
+
+
+(* ---------------------------------------------------------------- delivery of one hash result *)
+Lemma release_x s i :
+  inv (Some i) s ->
+  inv None (chunk_release s i true) /\
+  s_out (chunk_release s i true) = s_out s /\ s_hq (chunk_release s i true) = s_hq s /\
+  s_delay (chunk_release s i true) = s_delay s /\ s_pos (chunk_release s i true) = s_pos s /\
+  length (s_nodes (chunk_release s i true)) = length (s_nodes s).
+Proof.
+  intros [HR HC]. pose proof HR as [S0 I0 NL RL B ND X NDP HL HRg P O D].
+  destruct (X i eq_refl) as [Hni [b Hn]].
+  rewrite (chunk_release_ok s i true b 0 1 Hn); [|discriminate]. cbn [Nat.eqb pred].
+  assert (Hil : i < length (s_nodes s)) by (apply nth_error_Some; rewrite Hn; discriminate).
+  split; [|simpl; rewrite upd_length; auto].
+  split.
+  - constructor; unfold hqi in *; simpl.
+    + destruct S0 as [A1 A2 A3 A4]. constructor; simpl; auto.
+      intros j nd c Hj Hc. destruct (Nat.eq_dec i j) as [<-|Hne].
+      * rewrite nth_error_upd_eq in Hj by assumption. inversion Hj; subst. discriminate.
+      * rewrite nth_error_upd_neq in Hj by assumption. eauto.
+    + assumption.
+    + rewrite upd_length. assumption.
+    + assumption.
+    + assumption.
+    + intros j nd Hj. destruct (Nat.eq_dec i j) as [<-|Hne].
+      * rewrite nth_error_upd_eq in Hj by assumption. inversion Hj; subst. split; [contradiction | auto].
+      * rewrite nth_error_upd_neq in Hj by assumption. destruct (ND j nd Hj) as [N1 N2].
+        split; [assumption | intros Hnj _; apply N2; [assumption | congruence]].
+    + discriminate.
+    + assumption.
+    + assumption.
+    + assumption.
+    + rewrite upd_length. assumption.
+    + rewrite upd_length. assumption.
+    + rewrite upd_length. assumption.
+  - eapply invC_same; eauto.
+Qed.
+
+Lemma do_deliver_inv s i :
+  inv None s ->
+  inv None (do_deliver H pl expected s i) /\
+  (is_checking s = false -> do_deliver H pl expected s i = s) /\
+  (In i (hqi s) -> live s ->
+     is_checking (do_deliver H pl expected s i) = false \/
+     (live (do_deliver H pl expected s i) /\ meas (do_deliver H pl expected s i) < meas s)).
+Proof.
+  intros HI. pose proof HI as [HR [C2 C9]]. pose proof HR as [S0 I0 NL RL B ND X NDP HL HRg P O D].
+  unfold do_deliver. destruct (hq_take i (s_hq s)) as [[b q']|] eqn:Ht.
+  2:{ split; [assumption|]. split; [reflexivity|]. intros Hin. apply hq_take_none in Ht. contradiction. }
+  destruct (hq_take_some _ _ _ _ Ht NDP) as (Hlq & Hndq & Hniq & Hiff).
+  destruct (hq_take_in _ _ _ _ Ht) as [Hinb _].
+  assert (Hin : In i (hqi s)) by (apply Hiff; auto).
+  destruct (s_out s) as [k|] eqn:Ho.
+  2:{ destruct O as [Hh _]. rewrite Hh in Hinb. destruct Hinb. }
+  destruct O as (Ok & Oo & Ob).
+  destruct (s_bits s) as [bl|] eqn:Hb; [|congruence]. destruct (B bl eq_refl) as [_ Hlb].
+  assert (Hlen : length (s_nodes s) = n) by (rewrite NL, Oo; reflexivity).
+  assert (Hs : settled s) by (intros e; congruence).
+  assert (Hdel : s_delay s = false).
+  { destruct (s_delay s) eqn:Hd; [|reflexivity]. destruct (D eq_refl) as [Hk0 _]. rewrite Hk0 in Ok. rewrite Hlq in Ok. discriminate. }
+  assert (Hipos : i < s_pos s) by (apply HL; assumption).
+  assert (Hin' : i < n) by lia.
+  assert (Hbit : nth i bl false = false).
+  { apply (C9 bl eq_refl Hs i Hin'). unfold pend. rewrite Ho. split; [apply HRg; assumption | right; assumption]. }
+  assert (Hpb : piece_bytes pl (s_files s) i = Some b) by (eapply iS_hq; eauto).
+  (* the state handed to queue() *)
+  set (bl' := if bytes_eqb (H b) (expected i) then upd bl i true else bl).
+  set (t := set_out (set_bits (set_hq s q') (Some bl')) (Some (length q'))).
+  assert (Hrhd : receive_hash_done H pl expected (set_hq s q') i b =
+                 chunk_release (queue pl (queue_fuel t) false t) i true).
+  { unfold receive_hash_done, is_checking. cbn [s_open set_hq s_out]. rewrite Oo, Ho. cbn [negb].
+    assert (Hs1 : (if bytes_eqb (H b) (expected i) then mark_completed (set_hq s q') i else set_hq s q')
+                  = set_bits (set_hq s q') (Some bl')).
+    { unfold bl', mark_completed. cbn [s_bits set_hq]. rewrite Hb.
+      destruct (bytes_eqb (H b) (expected i)).
+      - rewrite (nth_indep bl true false) by lia. rewrite Hbit. reflexivity.
+      - apply st_ext; simpl; auto. }
+    rewrite Hs1. cbn [s_out set_bits set_hq]. rewrite Ho, Ok, Hlq. reflexivity. }
+  assert (Hlb' : length bl' = n) by (unfold bl'; destruct (bytes_eqb _ _); [rewrite upd_length|]; assumption).
+  assert (Hvi : bytes_eqb (H b) (expected i) = false -> valid (s_files s) i = false).
+  { intros He. unfold ProofsA.valid. rewrite Hpb. exact He. }
+  assert (Hbl'j : forall j, j <> i -> nth j bl' false = nth j bl false).
+  { intros j Hj. unfold bl'. destruct (bytes_eqb _ _); [apply nth_upd_neq; congruence | reflexivity]. }
+  assert (HIt : inv (Some i) t).
+  { split.
+    - constructor; unfold hqi in *; simpl.
+      + destruct S0 as [A1 A2 A3 A4]. constructor; simpl; auto.
+        * intros j c Hj. apply A2. eapply hq_take_in; eauto.
+        * intros bl0 Hb0 j Hj. inversion Hb0; subst bl0. unfold bl' in Hj.
+          destruct (bytes_eqb (H b) (expected i)) eqn:He; [|eauto].
+          destruct (nth_upd_bool _ _ _ _ Hj) as [[-> _]|Hx]; [|eauto].
+          unfold ProofsA.valid. rewrite Hpb. exact He.
+      + assumption.
+      + assumption.
+      + assumption.
+      + intros bl0 Hb0. inversion Hb0; subst. auto.
+      + intros j nd Hj. destruct (ND j nd Hj) as [N1 N2]. split.
+        * intros Hjq. apply N1. apply Hiff. auto.
+        * intros Hjq Hji. apply N2; [|discriminate]. intros Hjh. apply Hiff in Hjh. destruct Hjh; [congruence | contradiction].
+      + intros j Hj. inversion Hj; subst j. split; [assumption|]. 
+        destruct (nth_error (s_nodes s) i) as [nd|] eqn:Hn; [|apply nth_error_None in Hn; lia].
+        destruct (ND i nd Hn) as [N1 _]. destruct (N1 Hin) as [c Hc]. subst. eauto.
+      + assumption.
+      + intros j Hj. apply HL. apply Hiff. auto.
+      + intros j Hj. apply HRg. apply Hiff. auto.
+      + assumption.
+      + repeat split; auto. discriminate.
+      + intros Hd'. congruence.
+    - constructor; intros bl0 Hb0 Hst j Hj; simpl in Hb0; inversion Hb0; subst bl0; unfold pend, hqi; simpl.
+      + intros Hbj Hv. assert (Hji : j <> i).
+        { intros ->. unfold bl' in Hbj. destruct (bytes_eqb (H b) (expected i)) eqn:He.
+          - rewrite nth_upd_eq in Hbj by lia. discriminate.
+          - rewrite (Hvi eq_refl) in Hv. discriminate. }
+        rewrite Hbl'j in Hbj by assumption.
+        destruct (C2 bl eq_refl Hs j Hj Hbj Hv) as [Hr Hm]. rewrite Ho in Hm. split; [assumption|].
+        destruct Hm as [Hm|Hm]; [left; assumption|]. apply Hiff in Hm. destruct Hm; [contradiction | right; assumption].
+      + intros [Hr Hm]. assert (Hji : j <> i).
+        { intros ->. destruct Hm as [Hm|Hm]; [lia | contradiction]. }
+        rewrite Hbl'j by assumption. apply (C9 bl eq_refl Hs j Hj). unfold pend. rewrite Ho. split; [assumption|].
+        destruct Hm as [Hm|Hm]; [left; assumption | right; apply Hiff; auto]. }
+  destruct (queue_inv H pl expected fs0 (queue_fuel t) false (Some i) t (length q') HIt) as (A & B1 & C & D1);
+    try reflexivity; try discriminate; auto;
+    try (intros j Hj; inversion Hj; subst; assumption);
+    try (unfold queue_fuel, t; simpl; lia); try (unfold t; simpl; assumption).
+  set (u := queue pl (queue_fuel t) false t) in *.
+  destruct (release_x u i A) as (HIu & Eo & Eh & Ed & Ep & El).
+  rewrite Hrhd.
+  destruct (do_tick_inv (chunk_release u i true) HIu) as (T1 & T2 & T3 & T4).
+  split; [assumption|]. split; [intros Hx; unfold is_checking in Hx; rewrite Ho in Hx; discriminate|].
+  intros _ _.
+  assert (Hmt : meas t < meas s) by (unfold meas, t; simpl; lia).
+  destruct C as [C|[[k' C1] C2']].
+  - left. apply T2. unfold is_checking. rewrite Eo, C. reflexivity.
+  - destruct (s_delay (chunk_release u i true)) eqn:Hdu.
+    + (* completion scheduled: the tick confirms it *)
+      left. apply T3.
+      * destruct HIu as [[_ _ _ _ _ _ _ _ _ _ _ Ou Du] _]. specialize (Du Hdu). rewrite Eo, C1 in Du, Ou.
+        destruct Du as [-> _]. destruct Ou as [Ou _]. destruct (s_hq (chunk_release u i true)); [reflexivity | discriminate].
+      * intros _ _. assumption.
+    + right. rewrite (T4 eq_refl). split.
+      * unfold live. intros Hne Hh. rewrite Eo in Hne. rewrite Eh in Hh. specialize (D1 eq_refl Hne Hh). congruence.
+      * unfold meas in *. rewrite El, Ep, Eh. lia.
+Qed.
+
 End Ops2.
